@@ -20473,6 +20473,32 @@ pub mod verif_hooks {
 		}
 	}
 
+	/// Runs the real `FundedChannel::build_closing_transaction` on a live channel whose balance and
+	/// dust limit are overwritten with the given values (no HTLCs may be pending). Returns
+	/// `(to_holder_sat, to_counterparty_sat, total_fee_sat)`.
+	pub fn closing_probe<SP: SignerProvider>(
+		chan: &mut FundedChannel<SP>, value_to_self_msat: u64, holder_dust_limit_satoshis: u64,
+		proposed_total_fee_satoshis: u64, skip_remote_output: bool,
+	) -> Result<(u64, u64, u64), ()>
+	where
+		SP::EcdsaSigner: EcdsaChannelSigner,
+	{
+		chan.funding.value_to_self_msat = value_to_self_msat;
+		chan.context.holder_dust_limit_satoshis = holder_dust_limit_satoshis;
+		if chan.context.shutdown_scriptpubkey.is_none() {
+			chan.context.shutdown_scriptpubkey = Some(ShutdownScript::new_p2wpkh(
+				&bitcoin::WPubkeyHash::from_slice(&[0; 20]).unwrap(),
+			));
+		}
+		if chan.context.counterparty_shutdown_scriptpubkey.is_none() {
+			chan.context.counterparty_shutdown_scriptpubkey = Some(ScriptBuf::new());
+		}
+		match chan.build_closing_transaction(proposed_total_fee_satoshis, skip_remote_output) {
+			Ok((tx, fee)) => Ok((tx.to_holder_value_sat(), tx.to_counterparty_value_sat(), fee)),
+			Err(_) => Err(()),
+		}
+	}
+
 	/// `[included_in_commitment(generated_by_local), preimage().is_some()]` of the real state enums
 	pub fn inbound_state_table(tag: u8, reason: u8, generated_by_local: bool) -> [bool; 2] {
 		let st = inbound_state(tag, reason);
